@@ -538,10 +538,13 @@ func (s *Server) SetFaultHook(h func(e Event) Fault) {
 	s.hook = h
 }
 
+// Log returns the events so far, ordered by Seq.
 func (s *Server) Log() []Event {
 	s.mu.Lock()
 	defer s.mu.Unlock()
-	return slices.Clone(s.log)
+	out := slices.Clone(s.log)
+	sort.SliceStable(out, func(i, j int) bool { return out[i].Seq < out[j].Seq }) // a connlost may overtake a running op
+	return out
 }
 
 // ResetLog clears the event log and the notification list (Seq keeps counting).
